@@ -70,6 +70,13 @@ AREAS = {
         "targets": ["Base/Str.vo", "Proofs/CtorFlattenProofs.vo"],
         "property": "C02 C03 C11 (checkShadowAndAppend of internal/constructor/fields.go = mark_pass / check_shadow_and_append of Model/Ctor.v)",
     },
+    "cliselect": {
+        "module": "CliSelectGen",
+        "bridge": "Bridge/CliSelectBridge.v",
+        "prims": ["GoPrims", "CliSelPrims"],
+        "targets": ["Base/Str.vo", "Proofs/CliProofs.vo"],
+        "property": "C16 (confirmTypes of internal/shoot/generatorbase.go = confirm_specified / the type-list choice of run_loaded; Contains = mem)",
+    },
     "enum": {
         "module": "EnumGen",
         "bridge": "Bridge/EnumBridge.v",
